@@ -282,12 +282,12 @@ def c11c(tree, ob):
     age = pm('ctr.add_block(CanonicalBlock() / BundleAgeBlock(age=$a))', g)
     ok = age is not None
     if ok:
-        av = fv.value_at(age['a'], g, keep=('now_dtntime', 'create_dtntime'))
-        cr = fv.value_at(ast.parse('create_dtntime', mode='eval').body, g, keep=('ctr',))
-        nw = fv.value_at(ast.parse('now_dtntime', mode='eval').body, g)
-        ok = src(av) in ('now_dtntime - create_dtntime', 'max(0, now_dtntime - create_dtntime)') and src(cr) == "ctr.bundle.primary.create_ts.getfieldval('dtntime')" and \
-            src(nw) == "self.timestamp().getfieldval('dtntime')"
-        unclamped = src(av) == 'now_dtntime - create_dtntime'
+        # fully inlined: whether "now" and the creation time are given names first does not matter
+        av = src(fv.value_at(age['a'], g, depth=6, keep=('ctr',)))
+        NOW = "self.timestamp().getfieldval('dtntime')"
+        CRE = "ctr.bundle.primary.create_ts.getfieldval('dtntime')"
+        ok = av in ('{} - {}'.format(NOW, CRE), 'max(0, {} - {})'.format(NOW, CRE))
+        unclamped = av == '{} - {}'.format(NOW, CRE)
     if not ok:
         ob.violate(AGENT, Q, src(g), 'the Bundle Age added is not (now - creation time)', g)
     elif unclamped:
